@@ -125,6 +125,15 @@ func (w *Walker) Walk(
 			ready:  readyCh,
 			cancel: cancelCh,
 		}
+	}
+
+	// Only start the routines once every selected node is registered: a node that completes
+	// while others are still being registered would otherwise not find its dependants
+	// (lost start/cancel message) and would access nodeInfoMap concurrently with the loop above.
+	for _, node := range w.graph.nodes {
+		if !node.GetIsSelected() {
+			continue
+		}
 
 		w.wait.Add(1)
 		// start all routines
